@@ -107,6 +107,15 @@ def run(ctx):
             cases.append(j)
             ntl += 1
     ctx.note("delay_duration_neighbourhood_trees", ntl)
+    rx = ctx.tlc("MC_HedRules", "MC_HedRules_dex.cfg", workers=1, label="one definition as Def tag and as Def-expand group in one annotation", timeout=3000)
+    ndx = 0
+    for j in rx.json_lines:
+        k = json.dumps([j["par"], j["kind"]])
+        if k not in seen and j["nviol"] <= 1 and "dex" in j["kind"] and "def" in j["kind"]:
+            seen.add(k)
+            cases.append(j)
+            ndx += 1
+    ctx.note("def_and_def_expand_trees", ndx)
     versions = [v for v, _ in facts.bundled()]
     jobs = []
     CH = 2000
